@@ -74,7 +74,7 @@ def msgFuel : String := "model: replay loop fuel exhausted"
 
 /-- the `loop { … }` of `next_task`. One unit of `fuel` per iteration; every iteration that `continue`s has
 consumed at least one step, so `schedule.steps.len() + 1 - self.steps` iterations always suffice
-(`ShuttleProofs.C01.nextTaskLoop_fuel`). -/
+(`ShuttleProofs.Replay.nextTaskLoop_fuel`, given `self.steps <= schedule.steps.len()`). -/
 def nextTaskLoop : Nat → ReplayState → List TaskView → SchedAns × ReplayState
   | 0, s, _ => (.panic msgFuel, s)
   | fuel + 1, s, runnable =>
